@@ -485,6 +485,49 @@ func firstDiff(a, b []byte) string {
 
 func levelName(l int) string { return fmt.Sprintf("L%d", l) }
 
+// Compressor capabilities: the interface asks for Write+Flush only; Close and
+// Reset are optional. The wrappers record what the compressor emits (ground
+// truth for the tail rule) and expose exactly the drawn method set.
+type capBase struct {
+	inner wsflate.Compressor
+	em    *emission
+}
+
+func (c *capBase) Write(p []byte) (int, error) { return c.inner.Write(p) }
+func (c *capBase) Flush() error                { return c.inner.Flush() }
+
+type capFlushOnly struct{ *capBase }
+
+type capClose struct{ *capBase }
+
+func (c capClose) Close() error { return c.inner.(io.Closer).Close() }
+
+type capAll struct{ capClose }
+
+func (c capAll) Reset(w io.Writer) {
+	c.em.w = w
+	c.em.all = c.em.all[:0]
+	c.inner.(wsflate.WriteResetter).Reset(c.em)
+}
+
+var capNames = []string{"write+flush+close+reset", "write+flush+close", "write+flush"}
+
+// capCtor wraps ctor's compressor; *em always points at the recorder in use.
+func capCtor(capability int, ctor func(io.Writer) wsflate.Compressor, em **emission) func(io.Writer) wsflate.Compressor {
+	return func(w io.Writer) wsflate.Compressor {
+		e := &emission{w: w}
+		*em = e
+		b := &capBase{inner: ctor(e), em: e}
+		switch capability {
+		case 0:
+			return capAll{capClose{b}}
+		case 1:
+			return capClose{b}
+		}
+		return capFlushOnly{b}
+	}
+}
+
 // flaky is a destination whose failAt-th Write call (0-based) fails without
 // taking a byte; every other call succeeds.
 type flaky struct {
@@ -523,7 +566,10 @@ func TestRoundTrip(t *testing.T) {
 		} else {
 			hx.Class("roundtrip/compressor=bare-flate")
 		}
-		ctor := rechunkCtor(level, plan)
+		capability := rapid.SampledFrom([]int{0, 0, 1, 2, 2}).Draw(t, "capability")
+		var em *emission
+		ctor := capCtor(capability, rechunkCtor(level, plan), &em)
+		hx.Class("roundtrip/compressor-methods=" + capNames[capability])
 
 		hx.Eval()
 		hx.Class("roundtrip/payload=" + class)
@@ -558,6 +604,7 @@ func TestRoundTrip(t *testing.T) {
 		}
 		var written []byte
 		closed := false
+		unflushed := true // anything (even nothing) not yet followed by a Flush
 		for i, o := range pat.Ops {
 			switch o.Kind {
 			case 'w':
@@ -566,10 +613,12 @@ func TestRoundTrip(t *testing.T) {
 					t.Fatalf("op %d of %s: Write(%d bytes) = %d, %v", i, pat, len(o.Data), n, err)
 				}
 				written = append(written, o.Data...)
+				unflushed = true
 			case 'f':
 				if err := w.Flush(); err != nil {
 					t.Fatalf("op %d of %s: Flush: %v (compress/flate level %d, output delivered as %v, is a conforming compressor)", i, pat, err, level, plan)
 				}
+				unflushed = false
 				if len(written) <= 8<<10 {
 					// every flush point is a possible end of message
 					got, msg := inflateMessage(rec.Bytes(), false)
@@ -582,10 +631,27 @@ func TestRoundTrip(t *testing.T) {
 					}
 				}
 			case 'c':
-				if err := w.Close(); err != nil {
+				err := w.Close()
+				if capability == 2 && unflushed {
+					// The compressor cannot be closed, so Close flushes nothing. If what the compressor
+					// emitted so far does not end in the tail this must be reported; if an earlier flush
+					// left the tail in place the loss is the caller's (doc: "After all data has been
+					// written client should call Flush()") — open.
+					if !bytes.HasSuffix(em.all, tail) {
+						if err == nil || w.Err() == nil {
+							t.Fatalf("op %d of %s with a Write+Flush-only compressor (level %d, output delivered as %v): Close = %v, Err() = %v although the compressor's output (%s) does not end in 0000ffff; destination holds %s for a %d-byte message",
+								i, pat, level, plan, err, w.Err(), shortTail(em.all), short(rec.Bytes()), len(payload))
+						}
+						hx.Class("roundtrip/close-without-flush-on-uncloseable-compressor=reported")
+					} else {
+						hx.Class("open/close-without-flush-on-uncloseable-compressor-after-earlier-flush")
+					}
+					return
+				}
+				if err != nil {
 					t.Fatalf("op %d of %s: Close: %v", i, pat, err)
 				}
-				closed = true
+				closed = capability != 2 // only a closeable compressor writes a final block
 			}
 		}
 		if err := w.Err(); err != nil {
@@ -615,12 +681,12 @@ func TestRoundTrip(t *testing.T) {
 		// writer reports it, or what was delivered still is the whole message.
 		if ncalls := len(rec.Calls); ncalls > 0 && !big {
 			var at []int
-			if ncalls <= 12 {
+			if ncalls <= hx.Pick(12, 4) {
 				for i := 0; i < ncalls; i++ {
 					at = append(at, i)
 				}
 			} else {
-				for k := 0; k < 6; k++ {
+				for k := 0; k < hx.Pick(6, 3); k++ {
 					at = append(at, rapid.IntRange(0, ncalls-1).Draw(t, "fail-at"))
 				}
 			}
@@ -1369,6 +1435,8 @@ func TestBadCompressor(t *testing.T) {
 		case "truncate":
 			drop = rapid.IntRange(1, 5).Draw(t, "drop")
 		}
+		// capability: the compressor may offer Write+Flush only (Close hidden)
+		hideClose := rapid.IntRange(0, 2).Draw(t, "hide-close") == 0
 		// reuse: a good message with a well-behaved compressor first, then Reset, then the misbehaviour
 		reuse := rapid.IntRange(0, 2).Draw(t, "reuse")
 		prelude := reuse != 0
@@ -1380,6 +1448,9 @@ func TestBadCompressor(t *testing.T) {
 			}
 			bc = &badCompressor{mode: m, out: em, goodFor: goodFor, plan: plan, extra: extra, drop: drop}
 			bc.fw, _ = flate.NewWriter(&bc.stage, level)
+			if hideClose {
+				return struct{ wsflate.Compressor }{bc}
+			}
 			return bc
 		}
 		rec := tx.NewRec()
@@ -1392,7 +1463,7 @@ func TestBadCompressor(t *testing.T) {
 			if err := w.Flush(); err != nil {
 				t.Fatalf("prelude Flush with a conforming compressor: %v", err)
 			}
-			if reuse == 2 {
+			if reuse == 2 && !hideClose {
 				if err := w.Close(); err != nil {
 					t.Fatalf("prelude Close with a conforming compressor: %v", err)
 				}
@@ -1435,6 +1506,7 @@ func TestBadCompressor(t *testing.T) {
 
 		hx.Eval()
 		hx.Class("bad/mode=" + mode)
+		hx.Class(fmt.Sprintf("bad/compressor-has-close=%v", !hideClose))
 		failedAt := -1
 		detected, undetectable := 0, 0
 		for i, s := range steps {
@@ -1489,7 +1561,7 @@ func TestBadCompressor(t *testing.T) {
 		default:
 			hx.Class("bad/outcome=tail-present-every-flush")
 		}
-		if mode == "good" && failedAt >= 0 {
+		if mode == "good" && failedAt >= 0 && !(hideClose && steps[failedAt].kind == 'c') {
 			t.Fatalf("a conforming compressor (compress/flate level %d behind a recording wrapper, output delivered as %v) was reported as bad at step %d", level, plan, failedAt)
 		}
 	})
